@@ -1,5 +1,6 @@
 import UvModel.Generated.Kernels
 import UvModel.Timer
+import UvModel.HandleKernels
 /-!
   Tie A obligations (DESIGN.md §2.2): the kernels *generated from /repo's current C text*
   (UvModel/Generated/Kernels.lean, rewritten by tools/gen_lean.py on every run) equal the
@@ -84,5 +85,110 @@ theorem next_timeout_eq (s : Timer.S) (hm : Int) (opq : Int)
       · have h2' : ¬ (((e.timeout - s.time : Nat) : Int) > 2147483647) := by omega
         simp [hne, h1, h1', hd, h2, h2']
         omega
+
+end UvModel.GenEq
+
+/-! ### C01 / C03: handle and loop accounting kernels (uv-common.h macros, core.c) -/
+namespace UvModel.GenEq
+open UvModel UvModel.Generated UvModel.HandleKernels
+
+/-- the counter range in which C's `unsigned int` arithmetic is plain integer arithmetic -/
+def InU32 (n : Int) : Prop := 0 ≤ n ∧ n < 4294967296
+
+theorem u32_id {n : Int} (h : InU32 n) : CSem.u32 n = n := by
+  unfold CSem.u32 InU32 at *; omega
+
+/-- `uv__handle_start` (macro expanded from /repo) = `HandleKernels.handleStart`,
+    provided the counter does not wrap (`ah + 1 < 2^32`) -/
+theorem handle_start_eq (k : HK) (h : InU32 k.ah) (h' : InU32 (k.ah + 1)) :
+    handle_start k.active k.ref k.ah
+      = some { ret := 0, h_flags__UV_HANDLE_ACTIVE := (handleStart k).active,
+               h_loop_active_handles := (handleStart k).ah } := by
+  unfold handle_start handleStart
+  cases ha : k.active <;> cases hr : k.ref <;> simp_all [u32_id]
+
+/-- `uv__handle_stop` = `HandleKernels.handleStop`, provided the counter does not underflow
+    when it is decremented (`ah ≥ 1` for an active referenced handle: the loop model's count_inv) -/
+theorem handle_stop_eq (k : HK) (h : InU32 k.ah) (h' : k.active → k.ref → InU32 (k.ah - 1)) :
+    handle_stop k.active k.ref k.ah
+      = some { ret := 0, h_flags__UV_HANDLE_ACTIVE := (handleStop k).active,
+               h_loop_active_handles := (handleStop k).ah } := by
+  unfold handle_stop handleStop
+  cases ha : k.active <;> cases hr : k.ref <;> simp_all [u32_id]
+
+theorem handle_ref_eq (k : HK) (h : InU32 k.ah) (h' : InU32 (k.ah + 1)) :
+    handle_ref k.active k.closing k.ref k.ah
+      = some { ret := 0, h_flags__UV_HANDLE_REF := (handleRef k).ref,
+               h_loop_active_handles := (handleRef k).ah } := by
+  unfold handle_ref handleRef
+  cases ha : k.active <;> cases hr : k.ref <;> cases hc : k.closing <;> simp_all [u32_id]
+
+theorem handle_unref_eq (k : HK) (h : InU32 k.ah)
+    (h' : k.active → k.ref → ¬ k.closing → InU32 (k.ah - 1)) :
+    handle_unref k.active k.closing k.ref k.ah
+      = some { ret := 0, h_flags__UV_HANDLE_REF := (handleUnref k).ref,
+               h_loop_active_handles := (handleUnref k).ah } := by
+  unfold handle_unref handleUnref
+  cases ha : k.active <;> cases hr : k.ref <;> cases hc : k.closing <;> simp_all [u32_id]
+
+theorem is_active_eq (k : HK) : is_active k.active = some { ret := CSem.b2i (isActive k) } := by
+  simp [is_active, isActive]
+
+theorem is_closing_eq (k : HK) :
+    is_closing k.closed k.closing = some { ret := CSem.b2i (isClosing k) } := by
+  simp [is_closing, isClosing]
+
+theorem has_ref_eq (k : HK) : has_ref k.ref = some { ret := CSem.b2i (hasRef k) } := by
+  simp [has_ref, hasRef]
+
+theorem req_register_eq (ar : Int) (h : InU32 (ar + 1)) :
+    req_register ar = some { ret := 0, loop_active_reqs_count := reqRegister ar } := by
+  simp [req_register, reqRegister, u32_id h]
+
+theorem req_unregister_eq (ar : Int) (h : InU32 (ar - 1)) :
+    req_unregister ar = some { ret := 0, loop_active_reqs_count := reqUnregister ar } := by
+  simp [req_unregister, reqUnregister, u32_id h]
+
+theorem has_active_handles_eq (ah : Int) :
+    has_active_handles ah = some { ret := CSem.b2i (hasActiveHandles ah) } := by
+  simp [has_active_handles, hasActiveHandles, CSem.u32]
+
+theorem has_active_reqs_eq (ar : Int) :
+    has_active_reqs ar = some { ret := CSem.b2i (hasActiveReqs ar) } := by
+  simp [has_active_reqs, hasActiveReqs, CSem.u32]
+
+/-- `uv__loop_alive` (core.c) = `HandleKernels.loopAlive`; `closing` is the `closing_handles` pointer -/
+theorem loop_alive_eq (ah ar closing : Int) (pendingEmpty : Bool) :
+    loop_alive ah ar closing pendingEmpty
+      = some { ret := CSem.b2i (loopAlive ah ar pendingEmpty (decide (closing = 0))) } := by
+  simp [loop_alive, loopAlive, hasActiveHandles, hasActiveReqs, CSem.u32]
+
+/-- `uv__backend_timeout` (core.c) = `HandleKernels.backendTimeout` -/
+theorem backend_timeout_eq (next ah ar closing : Int) (reap idleEmpty pendingEmpty : Bool) (stop : Int) :
+    backend_timeout next ah ar closing reap idleEmpty pendingEmpty stop
+      = some { ret := backendTimeout (decide (stop ≠ 0)) ah ar pendingEmpty idleEmpty reap (decide (closing = 0)) next } := by
+  unfold backend_timeout backendTimeout hasActiveHandles hasActiveReqs CSem.u32
+  by_cases hs : stop = 0 <;> by_cases hc : closing = 0 <;>
+    cases reap <;> cases idleEmpty <;> cases pendingEmpty <;>
+    by_cases h1 : ah > 0 <;> by_cases h2 : ar > 0 <;> simp [hs, hc, h1, h2]
+
+theorem backend_timeout_api_eq (bt : Int) (wqEmpty : Bool) :
+    backend_timeout_api bt wqEmpty = some { ret := uvBackendTimeout wqEmpty bt } := by
+  unfold backend_timeout_api uvBackendTimeout
+  cases wqEmpty <;> simp
+
+/-- encoding of `uv_run_mode` as the C enum values -/
+def modeVal : Mode → Int
+  | .default => CEnum.UV_RUN_DEFAULT
+  | .once => CEnum.UV_RUN_ONCE
+  | .nowait => 2
+
+/-- `can_sleep` and the mode → timeout decision inside `uv_run` = `canSleep` / `runTimeout` -/
+theorem run_timeout_decision_eq (bt : Int) (idleEmpty pendingEmpty : Bool) (m : Mode) :
+    run_timeout_decision bt idleEmpty pendingEmpty (modeVal m)
+      = some { ret := 0, can_sleep := CSem.b2i (canSleep pendingEmpty idleEmpty),
+               timeout := runTimeout m (canSleep pendingEmpty idleEmpty) bt } := by
+  unfold run_timeout_decision runTimeout canSleep CSem.u32 CSem.b2i modeVal
+  cases m <;> cases idleEmpty <;> cases pendingEmpty <;> simp [CEnum.UV_RUN_DEFAULT, CEnum.UV_RUN_ONCE] <;> decide
 
 end UvModel.GenEq
